@@ -9068,7 +9068,16 @@ bool SoPlexBase<R>::_parseSettingsLine(char* line, const int lineNumber)
                          SPX_SET_MAX_LINE_LEN) == 0)
          {
             int value;
-            value = std::stoi(paramValueString);
+            try
+            {
+               value = std::stoi(paramValueString);
+            }
+            catch(const std::exception&)
+            {
+               SPX_MSG_INFO1(spxout, spxout << "Error parsing settings: invalid value <" << paramValueString
+                             << "> for parameter <" << paramName << ">.\n");
+               return false;
+            }
 
             if(setIntParam((SoPlexBase<R>::IntParam)param, value, false))
                break;
@@ -9101,12 +9110,39 @@ bool SoPlexBase<R>::_parseSettingsLine(char* line, const int lineNumber)
             Real value;
 
 #ifdef WITH_LONG_DOUBLE
-            value = std::stold(paramValueString);
+            try
+            {
+               value = std::stold(paramValueString);
+            }
+            catch(const std::exception&)
+            {
+               SPX_MSG_INFO1(spxout, spxout << "Error parsing settings: invalid value <" << paramValueString
+                             << "> for parameter <" << paramName << ">.\n");
+               return false;
+            }
 #else
 #ifdef WITH_FLOAT
-            value = std::stof(paramValueString);
+            try
+            {
+               value = std::stof(paramValueString);
+            }
+            catch(const std::exception&)
+            {
+               SPX_MSG_INFO1(spxout, spxout << "Error parsing settings: invalid value <" << paramValueString
+                             << "> for parameter <" << paramName << ">.\n");
+               return false;
+            }
 #else
-            value = std::stod(paramValueString);
+            try
+            {
+               value = std::stod(paramValueString);
+            }
+            catch(const std::exception&)
+            {
+               SPX_MSG_INFO1(spxout, spxout << "Error parsing settings: invalid value <" << paramValueString
+                             << "> for parameter <" << paramName << ">.\n");
+               return false;
+            }
 #endif
 #endif
 
@@ -9557,7 +9593,16 @@ bool SoPlexBase<R>::parseSettingsString(char* string)
                          SPX_SET_MAX_LINE_LEN) == 0)
          {
             int value;
-            value = std::stoi(paramValueString);
+            try
+            {
+               value = std::stoi(paramValueString);
+            }
+            catch(const std::exception&)
+            {
+               SPX_MSG_INFO1(spxout, spxout << "Error parsing settings: invalid value <" << paramValueString
+                             << "> for parameter <" << paramName << ">.\n");
+               return false;
+            }
 
             if(setIntParam((SoPlexBase<R>::IntParam)param, value, false))
                break;
@@ -9589,12 +9634,39 @@ bool SoPlexBase<R>::parseSettingsString(char* string)
          {
             Real value;
 #ifdef WITH_LONG_DOUBLE
-            value = std::stold(paramValueString);
+            try
+            {
+               value = std::stold(paramValueString);
+            }
+            catch(const std::exception&)
+            {
+               SPX_MSG_INFO1(spxout, spxout << "Error parsing settings: invalid value <" << paramValueString
+                             << "> for parameter <" << paramName << ">.\n");
+               return false;
+            }
 #else
 #ifdef WITH_FLOAT
-            value = std::stof(paramValueString);
+            try
+            {
+               value = std::stof(paramValueString);
+            }
+            catch(const std::exception&)
+            {
+               SPX_MSG_INFO1(spxout, spxout << "Error parsing settings: invalid value <" << paramValueString
+                             << "> for parameter <" << paramName << ">.\n");
+               return false;
+            }
 #else
-            value = std::stod(paramValueString);
+            try
+            {
+               value = std::stod(paramValueString);
+            }
+            catch(const std::exception&)
+            {
+               SPX_MSG_INFO1(spxout, spxout << "Error parsing settings: invalid value <" << paramValueString
+                             << "> for parameter <" << paramName << ">.\n");
+               return false;
+            }
 #endif
 #endif
 
